@@ -14,6 +14,7 @@ import (
 	"fmt"
 	"os"
 	"path/filepath"
+	"runtime"
 	"sort"
 	"strings"
 
@@ -66,6 +67,7 @@ type world struct {
 	memMeta memdb.MetadataDatabase
 	memIdx  memdb.IndexDatabase
 	md      memdb.MemoryDatabase
+	bufMgr  memdb.BufferManager
 	written []op
 	errs    []string
 }
@@ -93,9 +95,10 @@ func setup() {
 	}
 	x.memMeta = memdb.NewMetadataDatabase(&models.DatabaseConfig{Name: "db"}, x.meta)
 	x.memIdx = memdb.NewIndexDatabase(x.memMeta, x.idx)
+	x.bufMgr = memdb.NewBufferManager(filepath.Join(dir, "buf"))
 	x.md, err = memdb.NewMemoryDatabase(&memdb.MemoryDatabaseCfg{
 		IntervalCalc:  interval.Calculator(),
-		BufferMgr:     memdb.NewBufferManager(filepath.Join(dir, "buf")),
+		BufferMgr:     x.bufMgr,
 		IndexDatabase: x.memIdx,
 		Name:          "db/1",
 		Interval:      interval,
@@ -205,15 +208,24 @@ type replay struct {
 	Choices  []int    `json:"choices"`
 }
 
+var cleanups int
+
 func cleanup(x *vsched.Result) {
 	if wd == nil {
 		return
+	}
+	cleanups++
+	if os.Getenv("C11_MEMDEBUG") != "" && cleanups%2000 == 0 {
+		var ms runtime.MemStats
+		runtime.ReadMemStats(&ms)
+		fmt.Fprintf(os.Stderr, "MEMDEBUG exec=%d goroutines=%d heapAlloc=%dMB heapObjects=%d sys=%dMB\n", cleanups, runtime.NumGoroutine(), ms.HeapAlloc>>20, ms.HeapObjects, ms.Sys>>20)
 	}
 	if !x.Deadlock && !x.Horizon {
 		_ = wd.md.Close()
 		_ = wd.idx.Close()
 		_ = wd.meta.Close()
 	}
+	wd.bufMgr.Cleanup() // every field buffer is a 128 MiB mapping of a temp file
 	_ = os.RemoveAll(wd.dir)
 }
 
